@@ -239,16 +239,16 @@ def parseObservation (v : Values) (s : State) : Except Err State := do
     let types ← match s.metaD.get [key "obstypes", sy] with
       | some (.list l) => pure l
       | _ => throw .other
-    let step (acc : Except Err Data) (tf : Str × Str × Str × Str) : Except Err Data := do
-      let d ← acc
-      let (t, f) := tf
-      let val ← floatOpt f.1
-      let lli ← floatOpt f.2.1
-      let snr ← floatOpt f.2.2
-      d.appendObs t val lli snr
-    let d1 ← (types.zip (obsTriples types.length obs)).foldl step (pure s.data)
+    -- `_float` of value / LLI / SNR of every type of the system, then one append per type …
+    let vals ← (types.zip (obsTriples types.length obs)).mapM fun (tf : Str × Str × Str × Str) => do
+      let val ← floatOpt tf.2.1
+      let lli ← floatOpt tf.2.2.1
+      let snr ← floatOpt tf.2.2.2
+      pure (tf.1, val, lli, snr)
+    let d1 ← appendAll s.data vals
+    -- … and one NaN triple for every type of the file that the system does not have
     let unused := s.obstypesAll.filter fun t => !types.contains t
-    let d2 ← unused.foldlM (fun d t => d.appendObs t none none none) d1
+    let d2 ← appendAll d1 (unused.map fun t => (t, none, none, none))
     let station ← match s.metaD.get [key "marker_name"] with
       | some (.text t) => pure (lower t)
       | _ => throw .other
